@@ -4,3 +4,6 @@ package icmp
 
 func VerifSetEchoIDBase(v uint32) { curEchoID.Store(v) }
 func VerifGetEchoIDBase() uint32  { return curEchoID.Load() }
+
+// VerifNextEchoID draws the next echo identifier exactly as a new driver would.
+func VerifNextEchoID() uint16 { return nextEchoID() }
